@@ -1,0 +1,8 @@
+//go:build verif
+// +build verif
+
+package overloader
+
+import "time"
+
+func durationOf(ns int64) time.Duration { return time.Duration(ns) }
